@@ -3,6 +3,8 @@ package main
 import (
 	"fmt"
 	"go/ast"
+	"go/constant"
+	"regexp"
 	"go/token"
 	"go/types"
 	"golang.org/x/tools/go/packages"
@@ -112,6 +114,7 @@ type Engine struct {
 	stopOnViolation bool
 
 	pkgInfo  map[*types.Package]*packages.Package
+	cellSeqG int
 	tpl      *Path
 	tplErr   string
 	tplMu    sync.Mutex
@@ -841,6 +844,20 @@ func (e *Engine) constGlobal(g *ssa.Global) (Value, bool) {
 						continue
 					}
 					tv, ok := pp.TypesInfo.Types[vs.Values[i]]
+					if ce, isCall := vs.Values[i].(*ast.CallExpr); isCall && len(ce.Args) == 1 {
+						// var re = regexp.MustCompile(<constant>)
+						if sel, ok := ce.Fun.(*ast.SelectorExpr); ok && sel.Sel.Name == "MustCompile" {
+							if id, ok := sel.X.(*ast.Ident); ok && id.Name == "regexp" {
+								if av, ok := pp.TypesInfo.Types[ce.Args[0]]; ok && av.Value != nil && av.Value.Kind() == constant.String {
+									re, err := regexp.Compile(constant.StringVal(av.Value))
+									if err == nil {
+										e.cellSeqG++
+										return PtrV{c: &Cell{v: OpaqueV{kind: "regexp", data: re}, id: -e.cellSeqG}}, true
+									}
+								}
+							}
+						}
+					}
 					if !ok || tv.Value == nil {
 						return nil, false
 					}
